@@ -279,7 +279,7 @@ def work_repo(bins, seed, idx, tmp):
 
 def run(ctx):
     quick = ctx.tier == "quick"
-    per = 36 if quick else 500
+    per = 36 if quick else 1200
     for r in core.pmap(work_vectors, [(ctx.bins, "%s/%d/v%d" % (ctx.prop, ctx.seed, i), per, ctx.tmp) for i in range(32)]):
         ctx.merge_counts(r["st"])
         ctx.evaluations += r["st"]["runs"]
@@ -288,7 +288,7 @@ def run(ctx):
             ctx.refute(sig, why, case)
         for s in r["samples"][:1]:
             ctx.sample(s, cap=3)
-    nrep = 32 if quick else 400
+    nrep = 32 if quick else 900
     for r in core.pmap(work_repo, [(ctx.bins, "%s/%d" % (ctx.prop, ctx.seed), i, ctx.tmp) for i in range(nrep)]):
         ctx.merge_counts(r["st"])
         ctx.evaluations += r["st"]["repo_runs"]
